@@ -33,7 +33,7 @@ static void emit_tok(int r, const char *t, int n)
 """
 
 MAIN_C = r"""
-static yyscan_t g_sc[MAXI]; static int g_n;
+static yyscan_t g_sc[MAXI]; static yyscan_t g_aux; static int g_n;
 static void *runner(void *arg)
 {
     int i = (int) (long) arg;
@@ -50,6 +50,23 @@ int main(int argc, char **argv)
         if (yylex_init(&g_sc[i])) return 3;
         yyset_in(f[i], g_sc[i]); done[i] = 0;
     }
+#ifdef USE_TABLES
+    {   /* the serialized tables are loaded once, through an instance that scans nothing, and released at the very end */
+        FILE *tf = fopen(getenv("C12_TABLES"), "rb");
+        if (!tf || yylex_init(&g_aux) || yytables_fload(tf, g_aux) != 0) return 4;
+        fclose(tf);
+    }
+#endif
+    if (argv[1][0] == 'e') {
+        /* lifetimes overlap: an instance is destroyed as soon as its input is exhausted, the others go on */
+        for (p = argv[2]; *p; p++) { i = *p - '0'; if (i < g_n && !done[i]) { g_cur = i; if (yylex(g_sc[i]) == 0) { done[i] = 1; yylex_destroy(g_sc[i]); fclose(f[i]); } } }
+        for (i = 0; i < g_n; i++) { g_cur = i; while (!done[i]) if (yylex(g_sc[i]) == 0) { done[i] = 1; yylex_destroy(g_sc[i]); fclose(f[i]); } }
+#ifdef USE_TABLES
+        yytables_destroy(g_aux); yylex_destroy(g_aux);
+#endif
+        for (i = 0; i < g_n; i++) printf("== %d\n%s", i, g_out[i] ? g_out[i] : "");
+        return 0;
+    }
     if (argv[1][0] == 't') {
         for (i = 0; i < g_n; i++) pthread_create(&th[i], 0, runner, (void *) (long) i);
         for (i = 0; i < g_n; i++) pthread_join(th[i], 0);
@@ -58,6 +75,9 @@ int main(int argc, char **argv)
         for (i = 0; i < g_n; i++) { g_cur = i; while (!done[i]) if (yylex(g_sc[i]) == 0) done[i] = 1; }
     }
     for (i = 0; i < g_n; i++) { yylex_destroy(g_sc[i]); fclose(f[i]); }
+#ifdef USE_TABLES
+    yytables_destroy(g_aux); yylex_destroy(g_aux);
+#endif
     for (i = 0; i < g_n; i++) printf("== %d\n%s", i, g_out[i] ? g_out[i] : "");
     return 0;
 }
@@ -92,7 +112,7 @@ int main(int argc, char **argv)
 """
 
 
-def make_spec(prog, rng, be):
+def make_spec(prog, rng, be, tables=False):
     nrules = len(prog['rules'])
     if be == 'c99':
         top = "\n%{\n#define _GNU_SOURCE 1\n" + TOP_C + "#define tok(r) emit_tok(r, yyget_text(yyscanner), (int) yyget_leng(yyscanner))\n%}\n"
@@ -122,6 +142,9 @@ def make_spec(prog, rng, be):
         options.append("array")
     if feat.chance(40):
         options.append("yylineno")
+    if tables:
+        options.append('tables-file="t.tables"')
+        top = top.replace("#include <stdio.h>", "#define USE_TABLES 1\n#include <stdio.h>", 1)
     text = scanner.make_spec(prog, rng, options=options, actions=actions, prologue=top,
                              epilogue=main, backend=be)
     if be == 'c99':
@@ -142,7 +165,13 @@ def parse(out):
     return res
 
 
-def writable_globals(wd, obj, csrc):
+# with --tables-file the tables are pointers filled once by yytables_fload() and shared by all instances (manual, "Loading and
+# Unloading Serialized Tables"): they are the documented exception to "no state outside the scanner object"
+TABLE_POINTERS = {"yy_accept", "yy_base", "yy_chk", "yy_def", "yy_ec", "yy_meta", "yy_nxt", "yy_NUL_trans", "yy_acclist",
+                  "yy_rule_can_match_eol", "yy_start_state_list", "yy_transition", "yydmap"}
+
+
+def writable_globals(wd, obj, csrc, tables=False):
     """symbols in writable sections, except the harness's own (g_*) and tables of pointers to constant data that the source
     declares 'static const ... *name[]' (relocated, never assigned: yy_start_state_list)"""
     rc, out, err = run(["nm", obj], cwd=wd, timeout=30)
@@ -154,6 +183,8 @@ def writable_globals(wd, obj, csrc):
         if len(p) >= 3 and p[1] in "BbDdCc" and "g_" not in p[2] and not p[2].startswith("__") and not p[2].startswith("_ZSt") and "completed" not in p[2]:
             if re.search(r"^static const [^;=\n]*\*\s*%s\s*\[" % re.escape(p[2]), body, re.M) and not re.search(r"\b%s\s*\[[^\]]*\]\s*=[^=]" % re.escape(p[2]), body.split("{", 1)[1] if False else ""):
                 continue
+            if tables and p[2] in TABLE_POINTERS:
+                continue
             bad.append("%s %s" % (p[1], p[2]))
     return bad
 
@@ -164,7 +195,8 @@ def one(job):
     wd = os.path.join(_ROOT, "i%d" % idx)
     os.makedirs(wd, exist_ok=True)
     prog = rulesets.gen_program(rng.fork("p"), trailing=rng.chance(25), max_scs=0, csize=256)
-    text = make_spec(prog, rng.fork("print"), be)
+    tables = be == 'r' and idx % 3 == 1          # tables shared by all instances: loaded once from a --tables-file
+    text = make_spec(prog, rng.fork("print"), be, tables=tables)
     ext = backends.BACKENDS[be]['ext']
     with open(os.path.join(wd, "s.l"), "w") as f:
         f.write(text)
@@ -181,7 +213,7 @@ def one(job):
     # object facts: no writable data outside the per-scanner structure
     rc, o, e = scanner.compile_c("s." + ext, "s.o", wd, extra=inc + ["-c", "-pthread"], backend=be)
     if rc == 0:
-        bad = writable_globals(wd, "s.o", "s." + ext)
+        bad = writable_globals(wd, "s.o", "s." + ext, tables=tables)
         if bad:
             problems.append("the object of a reentrant scanner has writable global data: %s" % bad[:6])
     n = rng.rng(2, 5)
@@ -194,8 +226,9 @@ def one(job):
         files.append(p)
     exe = os.path.join(wd, "s.exe")
     alone = {}
+    tenv = {"C12_TABLES": os.path.join(wd, "t.tables")}
     for i in range(n):
-        rc, out, err = run([exe, "s", "", files[i]], timeout=30)
+        rc, out, err = run([exe, "s", "", files[i]], timeout=30, env=tenv)
         if rc != 0:
             problems.append("instance %d alone exits %s: %s" % (i, rc, err.decode(errors='replace')[:100]))
         alone[i] = parse(out).get(0, [])
@@ -205,7 +238,8 @@ def one(job):
         sched = "".join(str(rng.below(n)) for _ in range(rng.rng(1, total)))
         if k == 2:
             sched = "".join(str(i) for i in range(n)) * (total // n + 1)        # strict round robin
-        rc, out, err = run([exe, "s", sched] + files, timeout=30)
+        # the C drivers also run every schedule with overlapping lifetimes (mode e: an instance is destroyed when it is done)
+        rc, out, err = run([exe, "e" if (be != 'cxx' and k == 1) else "s", sched] + files, timeout=30, env=tenv)
         nsched += 1
         got = parse(out)
         for i in range(n):
@@ -218,7 +252,8 @@ def one(job):
     # threads, under ThreadSanitizer
     rc, o, e = scanner.compile_c("s." + ext, "t.exe", wd, extra=inc + ["-pthread", "-fsanitize=thread", "-g", "-O1"], backend=be)
     if rc == 0:
-        rc, out, err = run([os.path.join(wd, "t.exe"), "t", ""] + files, timeout=120, env={"TSAN_OPTIONS": "halt_on_error=0:exitcode=66"})
+        rc, out, err = run([os.path.join(wd, "t.exe"), "t", ""] + files, timeout=120,
+                           env=dict(tenv, TSAN_OPTIONS="halt_on_error=0:exitcode=66"))
         errs = err.decode(errors="replace")
         m = re.search(r"WARNING: ThreadSanitizer: ([^\n]*)", errs)
         if m:
